@@ -311,7 +311,8 @@ def main(p):
                      f'{len(ch2.log)} calls on the second client\'s channel, {len(ch1.log)} on the first client\'s')
 
     asyncio.run(amain())
-    conformance(p, a, lib, out, combos, build_args, VOID)
+    if not a.get('no_conformance'):
+        conformance(p, a, lib, out, combos, build_args, VOID)
     return out
 
 
